@@ -4,7 +4,7 @@
    algebra that ties the value / initial-condition arithmetic of
    _do_simplify_combine to the Thevenin (series) and Norton (parallel) sums of
    the group it replaces. *)
-Require Import LT.FieldSec LT.Circuit LT.RewriteEquiv LT.RewriteBranch LT.RewriteModel.
+Require Import LT.FieldSec LT.Circuit LT.RewriteEquiv LT.RewriteBranch LT.RewriteModel LT.RewriteMore.
 From Coq Require Import Permutation.
 Local Open Scope Z_scope.
 
@@ -375,7 +375,7 @@ Proof.
   - rewrite Ev, value_recip. specialize (Hr eq_refl). transitivity (fmul (fdiv f1 s) (rsum ms)); [fsd|].
     unfold rsum. rewrite <- ksum_scale, map_map. apply ksum_map_ext. intros m Hm. unfold ty. destruct (AT m Hm) as [A1 A2]. rewrite A1.
     unfold valid in A2. rewrite A1 in A2. fsd.
-  - rewrite Ev. assert (Ez : forall m, In m ms -> ty (fst m) = f0) by (intros m Hm; unfold ty; rewrite (proj1 (AT m Hm)); reflexivity).
+  - assert (Ez : forall m, In m ms -> ty (fst m) = f0) by (intros m Hm; unfold ty; rewrite (proj1 (AT m Hm)); reflexivity).
     symmetry. apply ksum_zero. exact Ez.
   - rewrite Ev, value_recip. specialize (Hr eq_refl). transitivity (rsum ms); [fsd|]. unfold rsum.
     apply ksum_map_ext. intros m Hm. unfold ty. rewrite (proj1 (AT m Hm)). reflexivity.
@@ -453,4 +453,836 @@ Proof.
   - unfold tj at 1. rewrite Et, Et0, Ek, Ev, value_signed_plain, sgn_mul. unfold vsum. rewrite sgn_ksum, map_map, <- ksum_scale, map_map.
     unfold tjsum. apply ksum_map_ext. intros m Hm. unfold tj. rewrite (proj1 (AT m Hm)), sgn_mul, (KW m Hm), (PO m Hm). reflexivity.
 Qed.
+
+(* ================= the parallel theorem on elements =========================== *)
+(* member m sits across (a, b): + at a when its flag is true, + at b otherwise *)
+Definition across (a b : nat) (m : mem_t) : Prop := enodes (fst m) = if snd m then [a; b] else [b; a].
+Definition br_or (e : elem) : branch K := match branch_of e with Some b => b | None => BI f0 end.
+Definition pstep_of (m : mem_t) : pstep K := (snd m, br_or (fst m)).
+Lemma esem_psem a b (m : mem_t) : across a b m -> branch_of (fst m) <> None -> esem (fst m) = psem (zn a) (zn b) (pstep_of m).
+Proof. unfold across, esem, psem, pstep_of, br_or, en1, en2. intros Ha Hb. destruct (branch_of (fst m)) as [bch|]; [|congruence].
+  cbn [fst snd]. rewrite Ha. destruct (snd m); reflexivity. Qed.
+Lemma branch_some (e : elem) t : etyp e = t -> t <> TO -> t <> TX -> branch_of e <> None.
+Proof. intros <- H1 H2. unfold branch_of. destruct (etyp e); congruence. Qed.
+Lemma nsem_psems a b (ms : list mem_t) : (forall m, In m ms -> across a b m /\ branch_of (fst m) <> None) ->
+  nsem (els_of ms) = psems (zn a) (zn b) (map pstep_of ms).
+Proof. intros H. unfold nsem, psems. rewrite !map_map. apply map_ext_in. intros m Hm. apply esem_psem; apply H; exact Hm. Qed.
+
+Lemma Ysum_map (ms : list mem_t) : (forall m, In m ms -> py (pstep_of m) = ty (fst m)) -> Ysum (map pstep_of ms) = tysum ms.
+Proof. induction ms as [|m ms IH]; intros H; [reflexivity|]. cbn [map Ysum]. unfold tysum. cbn [map ksum].
+  rewrite H by (left; reflexivity). rewrite IH by (intros; apply H; right; assumption). reflexivity. Qed.
+Lemma Jsum_map (ms : list mem_t) : (forall m, In m ms -> pj (pstep_of m) = sgn (snd m) (tj (fst m))) -> Jsum (map pstep_of ms) = tjsum ms.
+Proof. induction ms as [|m ms IH]; intros H; [reflexivity|]. cbn [map Jsum]. unfold tjsum. cbn [map ksum].
+  rewrite H by (left; reflexivity). rewrite IH by (intros; apply H; right; assumption). reflexivity. Qed.
+Lemma pzsum_map (ms : list mem_t) : (forall m, In m ms -> pz (pstep_of m) = ty (fst m)) -> pzsum (map pstep_of ms) = tysum ms.
+Proof. induction ms as [|m ms IH]; intros H; [reflexivity|]. cbn [map pzsum]. unfold tysum. cbn [map ksum].
+  rewrite H by (left; reflexivity). rewrite IH by (intros; apply H; right; assumption). reflexivity. Qed.
+Lemma pesum_map (ms : list mem_t) : (forall m, In m ms -> pe (pstep_of m) = sgn (snd m) (tj (fst m))) -> pesum (map pstep_of ms) = tjsum ms.
+Proof. induction ms as [|m ms IH]; intros H; [reflexivity|]. cbn [map pesum]. unfold tjsum. cbn [map ksum].
+  rewrite H by (left; reflexivity). rewrite IH by (intros; apply H; right; assumption). reflexivity. Qed.
+Lemma powns_map (ms : list mem_t) : (forall m, In m ms -> etyp (fst m) = TL) -> powns (map pstep_of ms) = map (fun m => zname (ename (fst m))) ms.
+Proof. induction ms as [|m ms IH]; intros H; [reflexivity|]. cbn [map powns]. rewrite IH by (intros; apply H; right; assumption).
+  unfold pstep_of at 1, br_or, branch_of. cbn [snd]. rewrite (H m (or_introl eq_refl)). reflexivity. Qed.
+
+Definition norton_type (t : ety) : Prop := match t with TR | TNR | TZ | TY | TC | TI => True | _ => False end.
+
+(* what has to hold of the combined element's Norton data *)
+Definition par_sums_ok (ms : list mem_t) (m0 : mem_t) (new : elem) : Prop :=
+  ty new = tysum ms /\ sgn (snd m0) (tj new) = tjsum ms.
+
+Theorem parallel_norton_equiv t a b (ms : list mem_t) m0 (new : elem) IN IV IR :
+  norton_type t -> all_type t ms -> (forall m, In m ms -> across a b m) ->
+  etyp new = t -> valid new -> across a b (new, snd m0) ->
+  par_sums_ok ms m0 new ->
+  port_equiv IN IV IR (nsem (els_of ms)) [esem new].
+Proof.
+  intros NT AT AC Et Vn An [Sy Sj].
+  assert (Tn : t <> TO /\ t <> TX /\ t <> TL /\ t <> TV /\ t <> TW) by (destruct t; cbn in NT; try contradiction; repeat split; discriminate).
+  destruct Tn as [T1 [T2 [T3 [T4 T5]]]].
+  rewrite (nsem_psems a b ms) by (intros m Hm; split; [apply AC; exact Hm | apply (branch_some _ t); [apply AT; exact Hm | exact T1 | exact T2]]).
+  change [esem new] with (nsem (els_of [(new, snd m0)])).
+  rewrite (nsem_psems a b [(new, snd m0)]) by (intros m [<-|[]]; split; [exact An | apply (branch_some _ t); assumption]).
+  assert (D : forall e fw, etyp e = t -> valid e -> norton (pstep_of (e, fw)) /\ py (pstep_of (e, fw)) = ty e /\ pj (pstep_of (e, fw)) = sgn fw (tj e)).
+  { intros e fw He Hv. unfold pstep_of, br_or. cbn [fst snd]. destruct (branch_of e) as [bch|] eqn:Eb.
+    - apply pstep_norton; congruence.
+    - exfalso. apply (branch_some e t He T1 T2). exact Eb. }
+  apply par_norton_equiv.
+  - apply Forall_forall. intros p Hp. apply in_map_iff in Hp. destruct Hp as [m [<- Hm]]. destruct m as [e fw]. apply D; apply (AT _ Hm).
+  - constructor; [|constructor]. apply D; assumption.
+  - rewrite Ysum_map by (intros [e fw] Hm; apply D; apply (AT _ Hm)). cbn [map Ysum]. rewrite (proj1 (proj2 (D new (snd m0) Et Vn))), Sy. ring.
+  - rewrite Jsum_map by (intros [e fw] Hm; apply D; apply (AT _ Hm)). cbn [map Jsum]. rewrite (proj2 (proj2 (D new (snd m0) Et Vn))), Sj. ring.
+Qed.
+
+(* inductors in parallel: the members' branch unknowns and the new one are private *)
+Theorem parallel_L_equiv a b (ms : list mem_t) m0 (new : elem) IN IV IR :
+  all_type TL ms -> (forall m, In m ms -> across a b m) ->
+  etyp new = TL -> valid new -> across a b (new, snd m0) ->
+  par_sums_ok ms m0 new ->
+  NoDup (map (fun m => ename (fst m)) ms) ->
+  (forall o, IR o = true <-> In o (map (fun m => zname (ename (fst m))) ms ++ [zname (ename new)])) ->
+  (forall o, In o (map (fun m => zname (ename (fst m))) ms ++ [zname (ename new)]) -> IV o = true) ->
+  port_equiv IN IV IR (nsem (els_of ms)) [esem new].
+Proof.
+  intros AT AC Et Vn An [Sy Sj] ND HIR HIV.
+  rewrite (nsem_psems a b ms) by (intros m Hm; split; [apply AC; exact Hm | apply (branch_some _ TL); [apply AT; exact Hm | discriminate | discriminate]]).
+  change [esem new] with (nsem (els_of [(new, snd m0)])).
+  rewrite (nsem_psems a b [(new, snd m0)]) by (intros m [<-|[]]; split; [exact An | apply (branch_some _ TL); [exact Et | discriminate | discriminate]]).
+  assert (D : forall e fw, etyp e = TL -> valid e -> zwf (pstep_of (e, fw)) /\ pz (pstep_of (e, fw)) = ty e /\ pe (pstep_of (e, fw)) = sgn fw (tj e)).
+  { intros e fw He Hv. unfold pstep_of, br_or. cbn [fst snd]. destruct (branch_of e) as [bch|] eqn:Eb.
+    - destruct (pstep_bz e fw bch Eb Hv He) as [A1 [A2 [A3 _]]]. auto.
+    - exfalso. apply (branch_some e TL He); [discriminate | discriminate | exact Eb]. }
+  assert (Z1 : Forall zwf (map pstep_of ms)).
+  { apply Forall_forall. intros p Hp. apply in_map_iff in Hp. destruct Hp as [[e fw] [<- Hm]]. apply D; apply (AT _ Hm). }
+  assert (Z2 : Forall zwf (map pstep_of [(new, snd m0)])) by (constructor; [apply D; assumption | constructor]).
+  assert (O1 : powns (map pstep_of ms) = map (fun m => zname (ename (fst m))) ms) by (apply powns_map; intros m Hm; apply AT; exact Hm).
+  assert (O2 : powns (map pstep_of [(new, snd m0)]) = [zname (ename new)]) by (rewrite powns_map; [reflexivity | intros m [<-|[]]; exact Et]).
+  assert (N1 : NoDup (powns (map pstep_of ms))).
+  { rewrite O1. rewrite <- (map_map (fun m => ename (fst m)) zname). apply FinFun.Injective_map_NoDup; [intros x y; apply zname_inj | exact ND]. }
+  assert (N2 : NoDup (powns (map pstep_of [(new, snd m0)]))) by (rewrite O2; constructor; [intros [] | constructor]).
+  assert (EZ : pzsum (map pstep_of ms) = pzsum (map pstep_of [(new, snd m0)])).
+  { rewrite pzsum_map by (intros [e fw] Hm; apply D; apply (AT _ Hm)). cbn [map pzsum]. rewrite (proj1 (proj2 (D new (snd m0) Et Vn))), Sy. ring. }
+  assert (EE : pesum (map pstep_of ms) = pesum (map pstep_of [(new, snd m0)])).
+  { rewrite pesum_map by (intros [e fw] Hm; apply D; apply (AT _ Hm)). cbn [map pesum]. rewrite (proj2 (proj2 (D new (snd m0) Et Vn))), Sj. ring. }
+  split.
+  - apply par_bz_sim; try assumption.
+    + intros o Ho. rewrite O1, O2 in Ho. apply in_app_or in Ho. destruct Ho as [Ho|[<-|[]]]; [|apply zname_pos].
+      apply in_map_iff in Ho. destruct Ho as [m [<- _]]. apply zname_pos.
+    + intros o. rewrite O1, O2. apply HIR.
+    + intros o Ho. rewrite O2 in Ho. apply HIV. apply in_or_app. right. exact Ho.
+  - apply par_bz_sim; try assumption; try (symmetry; assumption).
+    + intros o Ho. rewrite O1, O2 in Ho. apply in_app_or in Ho. destruct Ho as [[<-|[]]|Ho]; [apply zname_pos|].
+      apply in_map_iff in Ho. destruct Ho as [m [<- _]]. apply zname_pos.
+    + intros o. rewrite O1, O2, HIR. split; intros H; apply in_app_or in H; apply in_or_app; destruct H; auto.
+    + intros o Ho. rewrite O1 in Ho. apply HIV. apply in_or_app. left. exact Ho.
+Qed.
+
+(* ================= the series theorem on elements ============================= *)
+(* a chain of elements as [walk] lists it: (element, traversed + to -, next node) *)
+Definition trip := (elem * bool * nat)%type.
+Definition t_e (x : trip) : elem := fst (fst x).
+Definition t_fw (x : trip) : bool := snd (fst x).
+Definition t_nx (x : trip) : nat := snd x.
+Definition tstep (x : trip) : step K := Step (t_fw x) (br_or (t_e x)) (zn (t_nx x)).
+Definition tsteps (w : list trip) : list (step K) := map tstep w.
+Fixpoint wwalk (a : nat) (w : list trip) : Prop :=
+  match w with
+  | [] => True
+  | x :: w' => enodes (t_e x) = (if t_fw x then [a; t_nx x] else [t_nx x; a]) /\ wwalk (t_nx x) w'
+  end.
+Definition chain_el_ok (e : elem) : Prop := valid e /\ series_type (etyp e).
+Lemma series_type_branch e : series_type (etyp e) -> branch_of e <> None /\ etyp e <> TI.
+Proof. unfold series_type, branch_of. destruct (etyp e); intros H; try contradiction; split; discriminate. Qed.
+
+Lemma nsem_chain (w : list trip) : forall a, wwalk a w -> (forall x, In x w -> chain_el_ok (t_e x)) ->
+  nsem (map t_e w) = chain_sems (zn a) (tsteps w).
+Proof.
+  induction w as [|x w IH]; intros a W OK; [reflexivity|]. destruct W as [W1 W2].
+  cbn [map nsem tsteps chain_sems]. unfold nsem, tsteps in IH. rewrite (IH (t_nx x) W2) by (intros; apply OK; right; assumption).
+  f_equal. unfold esem, ssem, sp, sq, tstep, br_or, en1, en2. cbn [sfwd sbr snext].
+  destruct (series_type_branch (t_e x) (proj2 (OK x (or_introl eq_refl)))) as [Hb _].
+  destruct (branch_of (t_e x)); [|congruence]. rewrite W1. destruct (t_fw x); reflexivity.
+Qed.
+
+Definition Zt (w : list trip) : K := ksum (map (fun x => tz (t_e x)) w).
+Definition Et (w : list trip) : K := ksum (map (fun x => sgn (t_fw x) (te (t_e x))) w).
+Lemma tstep_data (x : trip) : chain_el_ok (t_e x) -> thev (tstep x) /\ sz (tstep x) = tz (t_e x) /\ se (tstep x) = sgn (t_fw x) (te (t_e x)).
+Proof. intros [Hv Ht]. destruct (series_type_branch _ Ht) as [Hb Hi]. unfold tstep, br_or.
+  destruct (branch_of (t_e x)) as [bch|] eqn:Eb; [|congruence]. apply step_data; assumption. Qed.
+Lemma tsteps_sums (w : list trip) : (forall x, In x w -> chain_el_ok (t_e x)) ->
+  Forall thev (tsteps w) /\ zsum (tsteps w) = Zt w /\ esum (tsteps w) = Et w.
+Proof. induction w as [|x w IH]; intros OK; [split; [constructor | split; reflexivity]|].
+  destruct (IH (fun y Hy => OK y (or_intror Hy))) as [I1 [I2 I3]]. destruct (tstep_data x (OK x (or_introl eq_refl))) as [D1 [D2 D3]].
+  unfold tsteps, Zt, Et in *. cbn [map zsum esum ksum]. split; [constructor; assumption|]. rewrite I2, I3, D2, D3. split; reflexivity. Qed.
+
+Lemma interior_snext (l1 l2 : list (step K)) : map snext l1 = map snext l2 -> interior l1 = interior l2.
+Proof. revert l2. induction l1 as [|s1 l1 IH]; intros [|s2 l2] H; try discriminate; [reflexivity|].
+  cbn [map] in H. injection H as H1 H2. destruct l1 as [|s1' l1], l2 as [|s2' l2]; try discriminate; [reflexivity|].
+  change (interior (s1 :: s1' :: l1)) with (snext s1 :: interior (s1' :: l1)).
+  change (interior (s2 :: s2' :: l2)) with (snext s2 :: interior (s2' :: l2)). rewrite H1, (IH _ H2). reflexivity. Qed.
+Lemma lastn_snext (l1 l2 : list (step K)) a : map snext l1 = map snext l2 -> lastn a l1 = lastn a l2.
+Proof. revert a l2. induction l1 as [|s1 l1 IH]; intros a [|s2 l2] H; try discriminate; [reflexivity|].
+  cbn [map] in H. injection H as H1 H2. cbn [lastn]. rewrite H1. apply IH. exact H2. Qed.
+
+(* own branch unknowns of a chain of elements are names of its elements *)
+Lemma owns_tsteps (w : list trip) o : In o (owns (tsteps w)) -> exists x, In x w /\ o = zname (ename (t_e x)) /\
+  exists Zb E, br_or (t_e x) = BZ Zb E o.
+Proof. induction w as [|x w IH]; intros H; [destruct H|]. unfold tsteps in *. cbn [map owns] in H. unfold tstep at 1 in H. cbn [sbr] in H.
+  destruct (br_or (t_e x)) as [Y J|Zb E o'|J] eqn:Eb.
+  - destruct (IH H) as [y [Hy R]]. exists y. split; [right; exact Hy | exact R].
+  - destruct H as [<-|H].
+    + exists x. split; [left; reflexivity|]. assert (o' = zname (ename (t_e x))).
+      { unfold br_or, branch_of in Eb. destruct (etyp (t_e x)); inversion Eb; reflexivity. }
+      split; [exact H | exists Zb, E; exact Eb].
+    + destruct (IH H) as [y [Hy R]]. exists y. split; [right; exact Hy | exact R].
+  - destruct (IH H) as [y [Hy R]]. exists y. split; [right; exact Hy | exact R]. Qed.
+Lemma br_or_own (e : elem) Zb E o : br_or e = BZ Zb E o -> o = zname (ename e).
+Proof. unfold br_or, branch_of. destruct (etyp e); intros H; inversion H; reflexivity. Qed.
+Lemma owns_sub (w : list trip) : exists f, owns (tsteps w) = map (fun x => zname (ename (t_e x))) (filter f w).
+Proof. exists (fun x => match br_or (t_e x) with BZ _ _ _ => true | _ => false end).
+  induction w as [|x w IH]; [reflexivity|]. unfold tsteps in *. cbn [map owns filter]. unfold tstep at 1. cbn [sbr].
+  destruct (br_or (t_e x)) as [Y J|Zb E o|J] eqn:Eb; [exact IH | | exact IH]. cbn [map]. rewrite IH, (br_or_own _ _ _ _ Eb). reflexivity. Qed.
+Lemma NoDup_filter {A} (f : A -> bool) (l : list A) : NoDup l -> NoDup (filter f l).
+Proof. induction 1 as [|x l Hx _ IH]; cbn [filter]; [constructor|]. destruct (f x); [constructor; [|exact IH] | exact IH].
+  intros Hi. apply filter_In in Hi. exact (Hx (proj1 Hi)). Qed.
+Lemma NoDup_map_filter {A B} (g : A -> B) (f : A -> bool) (l : list A) : NoDup (map g l) -> NoDup (map g (filter f l)).
+Proof. induction l as [|x l IH]; intros H; cbn [filter map]; [constructor|]. cbn [map] in H. inversion H as [|? ? Hx H']; subst.
+  destruct (f x); [cbn [map]; constructor; [|apply IH; exact H'] | apply IH; exact H'].
+  intros Hi. apply Hx. apply in_map_iff in Hi. destruct Hi as [y [<- Hy]]. apply in_map. apply filter_In in Hy. exact (proj1 Hy). Qed.
+Lemma owns_NoDup (w : list trip) : NoDup (map (fun x => ename (t_e x)) w) -> NoDup (owns (tsteps w)).
+Proof. intros H. destruct (owns_sub w) as [f ->]. rewrite <- (map_map (fun x => ename (t_e x)) zname).
+  apply FinFun.Injective_map_NoDup; [intros x y; apply zname_inj|]. apply NoDup_map_filter. exact H. Qed.
+
+(* in-place replacement: the first member becomes [new], the others wires *)
+Definition rep (first : name) (others : name -> bool) (new : elem) (wn : name -> name) (e : elem) : elem :=
+  if name_eqb (ename e) first then new
+  else if others (ename e) then Elem (wn (ename e)) TW (enodes e) KwNone f0 None else e.
+Definition trep (f : elem -> elem) (x : trip) : trip := (f (t_e x), t_fw x, t_nx x).
+
+Lemma ksum_filter_split {A} (g : A -> K) (f : A -> bool) (l : list A) :
+  ksum (map g l) = fadd (ksum (map g (filter f l))) (ksum (map g (filter (fun x => negb (f x)) l))).
+Proof. induction l as [|x l IH]; cbn [map filter ksum]; [ring|]. rewrite IH. destruct (f x); cbn [negb map ksum]; ring. Qed.
+
+Lemma wwalk_trep (f : elem -> elem) (w : list trip) : forall a, wwalk a w ->
+  (forall x, In x w -> enodes (f (t_e x)) = enodes (t_e x)) -> wwalk a (map (trep f) w).
+Proof. induction w as [|x w IH]; intros a W H; [exact I|]. destruct W as [W1 W2]. cbn [map wwalk]. split.
+  - unfold trep; cbn [t_e t_fw t_nx fst snd]. change (fst (fst x)) with (t_e x). rewrite H by (left; reflexivity). exact W1.
+  - apply IH; [exact W2 | intros y Hy; apply H; right; exact Hy]. Qed.
+
+Theorem series_equiv_inplace a (w : list trip) (ms : list mem_t) m0 ms' (new : elem) (wn : name -> name) (IN IV IR : Z -> bool) :
+  wwalk a w -> (forall x, In x w -> chain_el_ok (t_e x)) -> chain_wf (zn a) (tsteps w) ->
+  ms = m0 :: ms' ->
+  Permutation (map (fun x => (t_e x, t_fw x)) (filter (fun x => nmem (ename (t_e x)) (map (fun m => ename (fst m)) ms)) w)) ms ->
+  NoDup (map (fun m => ename (fst m)) ms) ->
+  chain_el_ok new -> enodes new = enodes (fst m0) ->
+  tz new = tzsum ms -> sgn (snd m0) (te new) = tesum ms ->
+  let r := rep (ename (fst m0)) (fun x => nmem x (map (fun m => ename (fst m)) ms')) new wn in
+  let w2 := map (trep r) w in
+  NoDup (map (fun x => ename (t_e x)) w2) ->
+  (forall n, IN n = true <-> In n (interior (tsteps w))) ->
+  (forall o, IR o = true <-> In o (owns (tsteps w) ++ owns (tsteps w2))) ->
+  (forall o, IV o = true <-> In o (map zname (map (fun m => ename (fst m)) ms ++ ename new :: map (fun m => wn (ename (fst m))) ms'))) ->
+  wwalk a w2 /\ chain_wf (zn a) (tsteps w2) /\
+  port_sim_o (same_current (zn a) (tsteps w) (tsteps w2)) IN IV IR (nsem (map t_e w)) (nsem (map t_e w2)) /\
+  port_sim_o (same_current (zn a) (tsteps w2) (tsteps w)) IN IV IR (nsem (map t_e w2)) (nsem (map t_e w)).
+Proof.
+  intros W OK WF E PERM NDm OKn En Sz Se r w2 ND2 HIN HIR HIV.
+  set (selx := fun x : trip => nmem (ename (t_e x)) (map (fun m => ename (fst m)) ms)) in *.
+  assert (Hm0 : In m0 ms) by (rewrite E; left; reflexivity).
+  (* facts about r *)
+  assert (Rfirst : r (fst m0) = new) by (unfold r, rep; rewrite (proj2 (name_eqb_eq _ _) eq_refl); reflexivity).
+  assert (Rother : forall m, In m ms' -> r (fst m) = Elem (wn (ename (fst m))) TW (enodes (fst m)) KwNone f0 None).
+  { intros m Hm. unfold r, rep. destruct (name_eqb (ename (fst m)) (ename (fst m0))) eqn:En0.
+    - exfalso. apply name_eqb_eq in En0. pose proof NDm as NDm'. rewrite E in NDm'. cbn [map] in NDm'. apply NoDup_cons_iff in NDm'. destruct NDm' as [Hn _]. apply Hn. rewrite <- En0.
+      apply in_map_iff. exists m. split; [reflexivity | exact Hm].
+    - assert (Ho : nmem (ename (fst m)) (map (fun m1 => ename (fst m1)) ms') = true).
+      { unfold nmem. apply existsb_exists. exists (ename (fst m)). split; [apply in_map_iff; exists m; split; [reflexivity | exact Hm] | apply name_eqb_eq; reflexivity]. }
+      rewrite Ho. reflexivity. }
+  assert (Rkeep : forall x, selx x = false -> r (t_e x) = t_e x).
+  { intros x Hx. unfold r, rep. unfold selx, nmem in Hx. rewrite E in Hx. cbn [map existsb] in Hx. apply orb_false_iff in Hx. destruct Hx as [H1 H2].
+    rewrite H1. unfold nmem. rewrite H2. reflexivity. }
+  (* members of the chain, as a permutation of ms *)
+  assert (Hin_w : forall m, In m ms -> exists x, In x w /\ selx x = true /\ t_e x = fst m /\ t_fw x = snd m).
+  { intros m Hm. apply (Permutation_in _ (Permutation_sym PERM)) in Hm. apply in_map_iff in Hm. destruct Hm as [x [Hx Hf]].
+    apply filter_In in Hf. exists x. split; [exact (proj1 Hf)|]. split; [exact (proj2 Hf)|]. destruct m; inversion Hx; split; reflexivity. }
+  assert (Hsel_ms : forall x, In x w -> selx x = true -> In (t_e x, t_fw x) ms).
+  { intros x Hx Hs. apply (Permutation_in _ PERM). apply in_map_iff. exists x. split; [reflexivity | apply filter_In; split; assumption]. }
+  (* the replaced chain has the same nodes *)
+  assert (Rnodes : forall x, In x w -> enodes (r (t_e x)) = enodes (t_e x)).
+  { intros x Hx. destruct (selx x) eqn:Hs; [|rewrite (Rkeep x Hs); reflexivity].
+    pose proof (Hsel_ms x Hx Hs) as Hm. rewrite E in Hm. destruct Hm as [Hm|Hm].
+    - assert (Ee : t_e x = fst m0) by (rewrite Hm; reflexivity). rewrite Ee, Rfirst. exact En.
+    - pose proof (Rother _ Hm) as Ro. cbn [fst] in Ro. rewrite Ro. reflexivity. }
+  assert (W2 : wwalk a w2).
+  { unfold w2. apply wwalk_trep; assumption. }
+  assert (OK2 : forall x, In x w2 -> chain_el_ok (t_e x)).
+  { intros x Hx. unfold w2 in Hx. apply in_map_iff in Hx. destruct Hx as [y [<- Hy]]. unfold trep, t_e. cbn [fst].
+    change (fst (fst y)) with (t_e y). destruct (selx y) eqn:Hs; [|rewrite (Rkeep y Hs); apply OK; exact Hy].
+    pose proof (Hsel_ms y Hy Hs) as Hm. rewrite E in Hm. destruct Hm as [Hm|Hm].
+    - assert (Ee : t_e y = fst m0) by (rewrite Hm; reflexivity). rewrite Ee, Rfirst. exact OKn.
+    - pose proof (Rother _ Hm) as Ro. cbn [fst] in Ro. rewrite Ro. split; cbn; exact I. }
+  assert (SN : map snext (tsteps w) = map snext (tsteps w2)).
+  { unfold tsteps, w2. rewrite !map_map. apply map_ext. intros x. reflexivity. }
+  destruct WF as [ND1 [Ha1 [Hl1 [Hp1 [NO1 [Ho1 T1]]]]]].
+  destruct (tsteps_sums w OK) as [TH1 [ZS1 ES1]]. destruct (tsteps_sums w2 OK2) as [TH2 [ZS2 ES2]].
+  assert (WF2 : chain_wf (zn a) (tsteps w2)).
+  { unfold chain_wf. rewrite <- (interior_snext _ _ SN), <- (lastn_snext _ _ (zn a) SN).
+    repeat split; try assumption.
+    - apply owns_NoDup. exact ND2.
+    - intros o Ho. destruct (owns_tsteps w2 o Ho) as [x [_ [-> _]]]. apply zname_pos. }
+  (* the sums *)
+  assert (SUMS : Zt w = Zt w2 /\ Et w = Et w2).
+  { assert (EZ2 : Zt w2 = ksum (map (fun x => tz (t_e (trep r x))) w)) by (unfold Zt, w2; rewrite map_map; reflexivity).
+    assert (EE2 : Et w2 = ksum (map (fun x => sgn (t_fw x) (te (t_e (trep r x)))) w)) by (unfold Et, w2; rewrite map_map; reflexivity).
+    rewrite EZ2, EE2. unfold Zt, Et.
+    assert (NM : forall (g : elem -> bool -> K), ksum (map (fun x => g (t_e (trep r x)) (t_fw x)) (filter (fun x => negb (selx x)) w)) =
+                                              ksum (map (fun x => g (t_e x) (t_fw x)) (filter (fun x => negb (selx x)) w))).
+    { intros g. apply ksum_map_ext. intros x Hx. apply filter_In in Hx. destruct Hx as [_ Hs]. apply negb_true_iff in Hs.
+      unfold trep, t_e at 1. cbn [fst]. change (fst (fst x)) with (t_e x). rewrite (Rkeep x Hs). reflexivity. }
+    assert (MM : forall (g : elem -> bool -> K), ksum (map (fun x => g (t_e x) (t_fw x)) (filter selx w)) = ksum (map (fun m => g (fst m) (snd m)) ms)).
+    { intros g. rewrite <- (map_map (fun x => (t_e x, t_fw x)) (fun m => g (fst m) (snd m))). apply ksum_perm. apply Permutation_map. exact PERM. }
+    assert (MR : forall (g : elem -> bool -> K), ksum (map (fun x => g (t_e (trep r x)) (t_fw x)) (filter selx w)) = ksum (map (fun m => g (r (fst m)) (snd m)) ms)).
+    { intros g. rewrite <- (map_map (fun x => (t_e x, t_fw x)) (fun m => g (r (fst m)) (snd m))). apply ksum_perm. apply Permutation_map. exact PERM. }
+    split.
+    - rewrite (ksum_filter_split (fun x => tz (t_e x)) selx w), (ksum_filter_split (fun x => tz (t_e (trep r x))) selx w).
+      pose proof (NM (fun e _ => tz e)) as N1. pose proof (MM (fun e _ => tz e)) as M1. pose proof (MR (fun e _ => tz e)) as R1. cbv beta in N1, M1, R1.
+      rewrite N1, M1, R1. f_equal.
+      fold (tzsum ms). rewrite <- Sz. rewrite E. cbn [map ksum]. rewrite Rfirst.
+      rewrite (ksum_zero (fun m => tz (r (fst m)))); [ring|]. intros m Hm. rewrite (Rother m Hm). reflexivity.
+    - rewrite (ksum_filter_split (fun x => sgn (t_fw x) (te (t_e x))) selx w), (ksum_filter_split (fun x => sgn (t_fw x) (te (t_e (trep r x)))) selx w).
+      pose proof (NM (fun e fw => sgn fw (te e))) as N1. pose proof (MM (fun e fw => sgn fw (te e))) as M1. pose proof (MR (fun e fw => sgn fw (te e))) as R1. cbv beta in N1, M1, R1.
+      rewrite N1, M1, R1. f_equal.
+      fold (tesum ms). rewrite <- Se. rewrite E. cbn [map ksum]. rewrite Rfirst.
+      rewrite (ksum_zero (fun m => sgn (snd m) (te (r (fst m))))); [ring|]. intros m Hm. rewrite (Rother m Hm). unfold te. cbn [etyp]. apply sgn_zero. }
+  destruct SUMS as [SZ SE].
+  (* retained branch unknowns sit in both chains with the same direction *)
+  assert (IVnew : forall x, In x w -> selx x = true -> IV (zname (ename (t_e x))) = true /\ IV (zname (ename (r (t_e x)))) = true).
+  { intros x Hx Hs. pose proof (Hsel_ms x Hx Hs) as Hm. split.
+    - apply HIV. apply in_map. apply in_or_app. left. apply in_map_iff. exists (t_e x, t_fw x). split; [reflexivity | exact Hm].
+    - apply HIV. apply in_map. apply in_or_app. right. rewrite E in Hm. destruct Hm as [Hm|Hm].
+      + assert (Ee : t_e x = fst m0) by (rewrite Hm; reflexivity). rewrite Ee, Rfirst. left. reflexivity.
+      + pose proof (Rother _ Hm) as Ro. cbn [fst] in Ro. rewrite Ro. cbn [ename]. right. apply in_map_iff. exists (t_e x, t_fw x). split; [reflexivity | exact Hm]. }
+  assert (K12 : kept_dir IV (tsteps w) (tsteps w2)).
+  { intros st2 Hst Zb E0 o Eb Ho. unfold tsteps, w2 in Hst. rewrite map_map in Hst. apply in_map_iff in Hst. destruct Hst as [x [<- Hx]].
+    unfold tstep in Eb. cbn [sbr] in Eb. unfold trep, t_e in Eb. cbn [fst] in Eb. change (fst (fst x)) with (t_e x) in Eb.
+    destruct (selx x) eqn:Hs.
+    - exfalso. rewrite (br_or_own _ _ _ _ Eb) in Ho. rewrite (proj2 (IVnew x Hx Hs)) in Ho. discriminate.
+    - rewrite (Rkeep x Hs) in Eb. exists (tstep x), Zb, E0. split; [apply in_map; exact Hx | split; [exact Eb | reflexivity]]. }
+  assert (K21 : kept_dir IV (tsteps w2) (tsteps w)).
+  { intros st1 Hst Zb E0 o Eb Ho. unfold tsteps in Hst. apply in_map_iff in Hst. destruct Hst as [x [<- Hx]].
+    unfold tstep in Eb. cbn [sbr] in Eb. destruct (selx x) eqn:Hs.
+    - exfalso. rewrite (br_or_own _ _ _ _ Eb) in Ho. rewrite (proj1 (IVnew x Hx Hs)) in Ho. discriminate.
+    - exists (tstep (trep r x)), Zb, E0. split; [unfold tsteps, w2; rewrite map_map; apply in_map_iff; exists x; split; [reflexivity | exact Hx]|].
+      split; [|reflexivity]. unfold tstep. cbn [sbr]. unfold trep, t_e. cbn [fst]. change (fst (fst x)) with (t_e x). rewrite (Rkeep x Hs). exact Eb. }
+  split; [exact W2|]. split; [exact WF2|].
+  rewrite (nsem_chain w a W OK), (nsem_chain w2 a W2 OK2).
+  assert (WF1 : chain_wf (zn a) (tsteps w)) by (unfold chain_wf; repeat split; assumption).
+  split.
+  - apply chain_sim_o; try assumption.
+    + apply lastn_snext. exact SN.
+    + rewrite ZS1, ZS2. exact SZ.
+    + rewrite ES1, ES2. exact SE.
+    + intros n. rewrite HIN, <- (interior_snext _ _ SN). split; [intros H; apply in_or_app; left; exact H | intros H; apply in_app_or in H; destruct H; assumption].
+  - apply chain_sim_o; try assumption.
+    + symmetry. apply lastn_snext. exact SN.
+    + rewrite ZS1, ZS2. symmetry. exact SZ.
+    + rewrite ES1, ES2. symmetry. exact SE.
+    + intros n. rewrite HIN, <- (interior_snext _ _ SN). split; [intros H; apply in_or_app; left; exact H | intros H; apply in_app_or in H; destruct H; assumption].
+    + intros o. rewrite HIR. split; intros H; apply in_app_or in H; apply in_or_app; destruct H; auto.
+Qed.
+
+(* ================= the named theorems of C05 =================================== *)
+Lemma series_action_type t add common signed : series_action t = Ok (ACombine add common signed) -> series_type t.
+Proof. destruct t; cbn; intros H; try discriminate; exact I. Qed.
+
+(* frames of a series rewrite *)
+Definition series_frames (w w2 : list trip) (ms : list mem_t) (ms' : list mem_t) (new : elem) (wn : name -> name) (IN IV IR : Z -> bool) : Prop :=
+  (forall n, IN n = true <-> In n (interior (tsteps w))) /\
+  (forall o, IR o = true <-> In o (owns (tsteps w) ++ owns (tsteps w2))) /\
+  (forall o, IV o = true <-> In o (map zname (map (fun m => ename (fst m)) ms ++ ename new :: map (fun m => wn (ename (fst m))) ms'))).
+
+(* SERIES, full strength: for every chain, every group of like members in any
+   orientation and any enumeration order, the netlist produced by the repaired
+   _do_simplify_combine (first member -> combined element, others -> wires) is
+   port-equivalent to the original chain, and every branch that stays in the
+   chain carries the same current *)
+Theorem combine_series_equiv a (w : list trip) (ms : list mem_t) m0 ms' t add common signed nm (new : elem) (wn : name -> name) IN IV IR :
+  wwalk a w -> (forall x, In x w -> chain_el_ok (t_e x)) -> chain_wf (zn a) (tsteps w) ->
+  ms = m0 :: ms' ->
+  Permutation (map (fun x => (t_e x, t_fw x)) (filter (fun x => nmem (ename (t_e x)) (map (fun m => ename (fst m)) ms)) w)) ms ->
+  NoDup (map (fun m => ename (fst m)) ms) ->
+  all_type t ms -> series_action t = Ok (ACombine add common signed) -> same_kwf ms m0 -> (add = false -> rsum ms <> f0) ->
+  (common = true -> exists e0, check_ic keqb repaired e0 (els_of ms) (sames_of ms) = Ok true) ->
+  new_elem repaired (els_of ms) (sames_of ms) add common signed nm = Ok new -> valid new ->
+  let r := rep (ename (fst m0)) (fun x => nmem x (map (fun m => ename (fst m)) ms')) new wn in
+  let w2 := map (trep r) w in
+  NoDup (map (fun x => ename (t_e x)) w2) -> series_frames w w2 ms ms' new wn IN IV IR ->
+  wwalk a w2 /\ chain_wf (zn a) (tsteps w2) /\
+  port_sim_o (same_current (zn a) (tsteps w) (tsteps w2)) IN IV IR (nsem (map t_e w)) (nsem (map t_e w2)) /\
+  port_sim_o (same_current (zn a) (tsteps w2) (tsteps w)) IN IV IR (nsem (map t_e w2)) (nsem (map t_e w)).
+Proof.
+  intros W OK WF E PERM NDm AT SA KW Hr CK H Vn r w2 ND2 [F1 [F2 F3]].
+  destruct (new_elem_inv repaired ms add common signed nm new m0 ms' E H) as [Et [_ [En _]]].
+  assert (Et0 : etyp (fst m0) = t) by (apply AT; apply (In_first ms m0 ms' E)).
+  apply (series_equiv_inplace a w ms m0 ms' new wn IN IV IR); try assumption.
+  - split; [exact Vn|]. rewrite Et, Et0. apply (series_action_type t add common signed SA).
+  - apply (series_tz repaired t ms m0 ms' add common signed nm new); assumption.
+  - apply (series_te_rep t ms m0 ms' add common signed nm new); assumption.
+Qed.
+
+(* the same for the UNCHANGED tree holds only under [plain_ok_series] *)
+Theorem combine_series_equiv_unchanged a (w : list trip) (ms : list mem_t) m0 ms' t add common signed nm (new : elem) (wn : name -> name) IN IV IR :
+  wwalk a w -> (forall x, In x w -> chain_el_ok (t_e x)) -> chain_wf (zn a) (tsteps w) ->
+  ms = m0 :: ms' ->
+  Permutation (map (fun x => (t_e x, t_fw x)) (filter (fun x => nmem (ename (t_e x)) (map (fun m => ename (fst m)) ms)) w)) ms ->
+  NoDup (map (fun m => ename (fst m)) ms) ->
+  all_type t ms -> series_action t = Ok (ACombine add common signed) -> same_kwf ms m0 -> (add = false -> rsum ms <> f0) ->
+  plain_ok_series t ms m0 ->
+  new_elem unchanged_tree (els_of ms) (sames_of ms) add common signed nm = Ok new -> valid new ->
+  let r := rep (ename (fst m0)) (fun x => nmem x (map (fun m => ename (fst m)) ms')) new wn in
+  let w2 := map (trep r) w in
+  NoDup (map (fun x => ename (t_e x)) w2) -> series_frames w w2 ms ms' new wn IN IV IR ->
+  wwalk a w2 /\ chain_wf (zn a) (tsteps w2) /\
+  port_sim_o (same_current (zn a) (tsteps w) (tsteps w2)) IN IV IR (nsem (map t_e w)) (nsem (map t_e w2)) /\
+  port_sim_o (same_current (zn a) (tsteps w2) (tsteps w)) IN IV IR (nsem (map t_e w2)) (nsem (map t_e w)).
+Proof.
+  intros W OK WF E PERM NDm AT SA KW Hr PO H Vn r w2 ND2 [F1 [F2 F3]].
+  destruct (new_elem_inv unchanged_tree ms add common signed nm new m0 ms' E H) as [Et [_ [En _]]].
+  assert (Et0 : etyp (fst m0) = t) by (apply AT; apply (In_first ms m0 ms' E)).
+  apply (series_equiv_inplace a w ms m0 ms' new wn IN IV IR); try assumption.
+  - split; [exact Vn|]. rewrite Et, Et0. apply (series_action_type t add common signed SA).
+  - apply (series_tz unchanged_tree t ms m0 ms' add common signed nm new); assumption.
+  - apply (series_te_plain t ms m0 ms' add common signed nm new); assumption.
+Qed.
+
+(* PARALLEL *)
+Lemma parallel_action_type t add common signed : parallel_action t = Ok (ACombine add common signed) -> norton_type t \/ t = TL.
+Proof. destruct t; cbn; intros H; try discriminate; auto; left; exact I. Qed.
+Definition parallel_frames (ms : list mem_t) (new : elem) (IV IR : Z -> bool) : Prop :=
+  (forall o, IR o = true <-> In o (map (fun m => zname (ename (fst m))) ms ++ [zname (ename new)])) /\
+  (forall o, In o (map (fun m => zname (ename (fst m))) ms ++ [zname (ename new)]) -> IV o = true).
+
+Lemma across_new (a b : nat) (m0 : mem_t) (new : elem) : across a b m0 -> enodes new = enodes (fst m0) -> across a b (new, snd m0).
+Proof. unfold across. cbn [fst snd]. intros H ->. exact H. Qed.
+
+Theorem combine_parallel_equiv t a b (ms : list mem_t) m0 ms' add common signed nm (new : elem) IN IV IR :
+  ms = m0 :: ms' -> all_type t ms -> (forall m, In m ms -> across a b m) ->
+  NoDup (map (fun m => ename (fst m)) ms) ->
+  parallel_action t = Ok (ACombine add common signed) -> same_kwf ms m0 -> (add = false -> rsum ms <> f0) ->
+  (common = true -> exists e0, check_ic keqb repaired e0 (els_of ms) (sames_of ms) = Ok true) ->
+  new_elem repaired (els_of ms) (sames_of ms) add common signed nm = Ok new -> valid new ->
+  parallel_frames ms new IV IR ->
+  port_equiv IN IV IR (nsem (els_of ms)) [esem new].
+Proof.
+  intros E AT AC ND PA KW Hr CK H Vn [F1 F2].
+  destruct (new_elem_inv repaired ms add common signed nm new m0 ms' E H) as [Et [_ [En _]]].
+  assert (Et0 : etyp (fst m0) = t) by (apply AT; apply (In_first ms m0 ms' E)).
+  assert (PS : par_sums_ok ms m0 new).
+  { split; [apply (parallel_ty repaired t ms m0 ms' add common signed nm new); assumption |
+            apply (parallel_tj_rep t ms m0 ms' add common signed nm new); assumption]. }
+  assert (An : across a b (new, snd m0)) by (apply across_new; [apply AC; apply (In_first ms m0 ms' E) | exact En]).
+  destruct (parallel_action_type t add common signed PA) as [NT| ->].
+  - apply (parallel_norton_equiv t a b ms m0 new); try assumption. congruence.
+  - apply (parallel_L_equiv a b ms m0 new); try assumption. congruence.
+Qed.
+Theorem combine_parallel_equiv_unchanged t a b (ms : list mem_t) m0 ms' add common signed nm (new : elem) IN IV IR :
+  ms = m0 :: ms' -> all_type t ms -> (forall m, In m ms -> across a b m) ->
+  NoDup (map (fun m => ename (fst m)) ms) ->
+  parallel_action t = Ok (ACombine add common signed) -> same_kwf ms m0 -> (add = false -> rsum ms <> f0) ->
+  plain_ok_parallel t ms m0 ->
+  new_elem unchanged_tree (els_of ms) (sames_of ms) add common signed nm = Ok new -> valid new ->
+  parallel_frames ms new IV IR ->
+  port_equiv IN IV IR (nsem (els_of ms)) [esem new].
+Proof.
+  intros E AT AC ND PA KW Hr PO H Vn [F1 F2].
+  destruct (new_elem_inv unchanged_tree ms add common signed nm new m0 ms' E H) as [Et [_ [En _]]].
+  assert (Et0 : etyp (fst m0) = t) by (apply AT; apply (In_first ms m0 ms' E)).
+  assert (PS : par_sums_ok ms m0 new).
+  { split; [apply (parallel_ty unchanged_tree t ms m0 ms' add common signed nm new); assumption |
+            apply (parallel_tj_plain t ms m0 ms' add common signed nm new); assumption]. }
+  assert (An : across a b (new, snd m0)) by (apply across_new; [apply AC; apply (In_first ms m0 ms' E) | exact En]).
+  destruct (parallel_action_type t add common signed PA) as [NT| ->].
+  - apply (parallel_norton_equiv t a b ms m0 new); try assumption. congruence.
+  - apply (parallel_L_equiv a b ms m0 new); try assumption. congruence.
+Qed.
+
+(* the result does not depend on the order in which the set was enumerated:
+   whatever member comes first, the rewritten group has the Thevenin / Norton
+   data of the original group (repaired variant) *)
+Lemma sums_perm (ms ms2 : list mem_t) : Permutation ms ms2 ->
+  tzsum ms = tzsum ms2 /\ tesum ms = tesum ms2 /\ tysum ms = tysum ms2 /\ tjsum ms = tjsum ms2.
+Proof. intros P. unfold tzsum, tesum, tysum, tjsum. repeat split; apply ksum_perm; apply Permutation_map; exact P. Qed.
+Theorem perm_invariant t (ms ms2 : list mem_t) m0 ms' m0' ms2' add common signed nm nm2 (new new2 : elem) :
+  Permutation ms ms2 -> ms = m0 :: ms' -> ms2 = m0' :: ms2' ->
+  all_type t ms -> series_action t = Ok (ACombine add common signed) -> same_kwf ms m0 -> (add = false -> rsum ms <> f0) ->
+  (common = true -> exists e0, check_ic keqb repaired e0 (els_of ms) (sames_of ms) = Ok true) ->
+  (common = true -> exists e0, check_ic keqb repaired e0 (els_of ms2) (sames_of ms2) = Ok true) ->
+  new_elem repaired (els_of ms) (sames_of ms) add common signed nm = Ok new ->
+  new_elem repaired (els_of ms2) (sames_of ms2) add common signed nm2 = Ok new2 ->
+  tz new = tz new2 /\ sgn (snd m0) (te new) = sgn (snd m0') (te new2).
+Proof.
+  intros P E E2 AT SA KW Hr CK CK2 H H2.
+  assert (AT2 : all_type t ms2) by (intros m Hm; apply AT; apply (Permutation_in _ (Permutation_sym P)); exact Hm).
+  assert (KW2 : same_kwf ms2 m0').
+  { intros m Hm. rewrite (KW m (Permutation_in _ (Permutation_sym P) Hm)). symmetry. apply KW.
+    apply (Permutation_in _ (Permutation_sym P)). rewrite E2. left. reflexivity. }
+  assert (Hr2 : add = false -> rsum ms2 <> f0).
+  { intros Ha. unfold rsum. rewrite <- (ksum_perm _ _ (Permutation_map (fun m => fdiv f1 (eval (fst m))) P)). apply Hr. exact Ha. }
+  destruct (sums_perm ms ms2 P) as [S1 [S2 _]].
+  rewrite (series_tz repaired t ms m0 ms' add common signed nm new E AT SA Hr H),
+          (series_tz repaired t ms2 m0' ms2' add common signed nm2 new2 E2 AT2 SA Hr2 H2),
+          (series_te_rep t ms m0 ms' add common signed nm new E AT SA KW CK H),
+          (series_te_rep t ms2 m0' ms2' add common signed nm2 new2 E2 AT2 SA KW2 CK2 H2). split; assumption.
+Qed.
+
+(* ---- s-domain model and noise model as chain rewrites ----------------------- *)
+Lemma tz_z_of (e : elem) : match etyp e with TR | TNR | TC | TL | TZ | TY => True | _ => False end -> tz e = z_of s e /\ te e = voc_of s e.
+Proof. unfold tz, te, z_of, voc_of. destruct (etyp e); intros H; try contradiction; split; reflexivity. Qed.
+
+(* [w2] is any chain with the same ends, e.g. the Z + V pair of RLC._s_model or
+   the NR + wire pair of the killed noise model *)
+Theorem chain_rewrite_equiv a (w w2 : list trip) IN IV IR :
+  wwalk a w -> wwalk a w2 -> (forall x, In x w -> chain_el_ok (t_e x)) -> (forall x, In x w2 -> chain_el_ok (t_e x)) ->
+  chain_wf (zn a) (tsteps w) -> chain_wf (zn a) (tsteps w2) -> lastn (zn a) (tsteps w) = lastn (zn a) (tsteps w2) ->
+  Zt w = Zt w2 -> Et w = Et w2 ->
+  (forall n, IN n = true <-> In n (interior (tsteps w) ++ interior (tsteps w2))) ->
+  (forall o, IR o = true <-> In o (owns (tsteps w) ++ owns (tsteps w2))) ->
+  (forall o, In o (owns (tsteps w) ++ owns (tsteps w2)) -> IV o = true) ->
+  port_equiv IN IV IR (nsem (map t_e w)) (nsem (map t_e w2)).
+Proof.
+  intros W1 W2 O1 O2 F1 F2 EL EZ EE HIN HIR HIV.
+  rewrite (nsem_chain w a W1 O1), (nsem_chain w2 a W2 O2).
+  destruct (tsteps_sums w O1) as [_ [Z1 E1]]. destruct (tsteps_sums w2 O2) as [_ [Z2 E2]].
+  assert (KD : forall l1 l2 : list (step K), (forall o, In o (owns l2) -> IV o = true) -> kept_dir IV l1 l2).
+  { intros l1 l2 H st2 Hst Zb E0 o Eb Ho. exfalso. assert (In o (owns l2)).
+    { clear -Hst Eb. induction l2 as [|s0 l2 IHl]; [destruct Hst|]. cbn [owns]. destruct Hst as [->|Hst].
+      - rewrite Eb. left. reflexivity.
+      - destruct (sbr s0); [apply IHl; exact Hst | right; apply IHl; exact Hst | apply IHl; exact Hst]. }
+    rewrite (H o H0) in Ho. discriminate. }
+  split.
+  - apply chain_sim; try assumption; [congruence | congruence |]. apply KD. intros o Ho. apply HIV. apply in_or_app. right. exact Ho.
+  - apply chain_sim; try assumption; [symmetry; assumption | congruence | congruence | | |].
+    + intros n. rewrite HIN. split; intros H; apply in_app_or in H; apply in_or_app; destruct H; auto.
+    + intros o. rewrite HIR. split; intros H; apply in_app_or in H; apply in_or_app; destruct H; auto.
+    + apply KD. intros o Ho. apply HIV. apply in_or_app. left. exact Ho.
+Qed.
+
+Hypothesis kwf_S : kwf KwS = f1.
+Lemma chain_wf_single a (x : trip) : chain_el_ok (t_e x) -> chain_wf (zn a) (tsteps [x]).
+Proof. intros OK. unfold chain_wf. cbn [tsteps map interior].
+  split; [constructor|]. split; [intros []|]. split; [intros []|]. split; [intros n []|].
+  split; [apply (owns_NoDup [x]); cbn [map]; repeat constructor; intros []|].
+  split; [intros o Ho; destruct (owns_tsteps [x] o Ho) as [z [_ [-> _]]]; apply zname_pos|].
+  constructor; [apply (tstep_data x); exact OK | constructor]. Qed.
+Lemma chain_wf_pair a (x y : trip) : chain_el_ok (t_e x) -> chain_el_ok (t_e y) ->
+  t_nx x <> O -> t_nx x <> a -> t_nx x <> t_nx y -> ename (t_e x) <> ename (t_e y) -> chain_wf (zn a) (tsteps [x; y]).
+Proof. intros OKx OKy H0 Ha Hy Hn. unfold chain_wf. cbn [tsteps map interior lastn]. unfold tstep at 1 2 3 4. cbn [snext].
+  split; [repeat constructor; intros []|]. split; [intros [H|[]]; apply zn_inj in H; congruence|].
+  split; [intros [H|[]]; apply zn_inj in H; congruence|]. split; [intros n [<-|[]]; apply zn_nonneg; exact H0|].
+  split; [apply (owns_NoDup [x; y]); cbn [map]; repeat constructor; [intros [H|[]]; congruence | intros []]|].
+  split; [intros o Ho; destruct (owns_tsteps [x; y] o Ho) as [z [_ [-> _]]]; apply zname_pos|].
+  constructor; [apply (tstep_data x); exact OKx | constructor; [apply (tstep_data y); exact OKy | constructor]]. Qed.
+
+(* RLC._s_model: an element with an initial-condition source (p, q) = impedance (p, d) + source (d, q) *)
+Theorem s_model_equiv (e : elem) (p q d : nat) IN IV IR :
+  match etyp e with TR | TNR | TC | TL | TZ | TY => True | _ => False end -> chain_el_ok e -> enodes e = [p; q] ->
+  z_of s e <> f0 -> d <> O -> d <> p -> d <> q ->
+  let w := [(e, true, q)] in
+  let w2 := map (fun x => (x, true, en2 x)) (fst (s_model_elem keqb s KwS e d)) in
+  (forall n, IN n = true <-> In n (interior (tsteps w) ++ interior (tsteps w2))) ->
+  (forall o, IR o = true <-> In o (owns (tsteps w) ++ owns (tsteps w2))) ->
+  (forall o, In o (owns (tsteps w) ++ owns (tsteps w2)) -> IV o = true) ->
+  port_equiv IN IV IR [esem e] (nsem (fst (s_model_elem keqb s KwS e d))).
+Proof.
+  intros Ht OK En Hz Hd0 Hdp Hdq w w2 HIN HIR HIV.
+  destruct (tz_z_of e Ht) as [TZe TEe].
+  assert (Ew2 : map t_e w2 = fst (s_model_elem keqb s KwS e d)).
+  { unfold w2. rewrite map_map. cbn [t_e fst]. apply map_id. }
+  change [esem e] with (nsem (map t_e w)). rewrite <- Ew2. clear Ew2.
+  assert (W1 : wwalk p w) by (cbn; split; [exact En | exact I]).
+  assert (O1 : forall x, In x w -> chain_el_ok (t_e x)) by (intros x [<-|[]]; exact OK).
+  assert (WF1 : chain_wf (zn p) (tsteps w)) by (apply chain_wf_single; exact OK).
+  assert (Sel : fst (s_model_elem keqb s KwS e d) =
+                if keqb (voc_of s e) f0 then [Elem (NVar 0 (orig_id (ename e))) TZ (enodes e) KwNone (z_of s e) None]
+                else [Elem (NVar 0 (orig_id (ename e))) TZ [en1 e; d] KwNone (z_of s e) None;
+                      Elem (NVar 1 (orig_id (ename e))) TV [d; en2 e] KwS (voc_of s e) None]).
+  { unfold s_model_elem. destruct (etyp e); try contradiction; destruct (keqb (voc_of s e) f0); reflexivity. }
+  assert (OKz : forall ns, chain_el_ok (Elem (NVar 0 (orig_id (ename e))) TZ ns KwNone (z_of s e) None)) by (intros ns; split; cbn; [exact Hz | exact I]).
+  assert (OKv : forall ns, chain_el_ok (Elem (NVar 1 (orig_id (ename e))) TV ns KwS (voc_of s e) None)) by (intros ns; split; cbn; exact I).
+  unfold w2 in *. rewrite Sel in *. unfold en1, en2 in *. rewrite En in *. cbn [nth] in *.
+  destruct (keqb (voc_of s e) f0) eqn:Ev; cbn [map enodes nth] in HIN, HIR, HIV.
+  - apply keqb_ok in Ev. apply (chain_rewrite_equiv p _ _ IN IV IR); cbn [map enodes nth]; try assumption.
+    + cbn. split; [reflexivity | exact I].
+    + intros x [<-|[]]. apply OKz.
+    + apply chain_wf_single. apply OKz.
+    + reflexivity.
+    + unfold Zt, w. cbn [map ksum t_e fst]. rewrite TZe. unfold tz. cbn [etyp eval]. ring.
+    + unfold Et, w. cbn [map ksum t_e t_fw fst snd]. rewrite TEe, Ev. unfold te. cbn [etyp sgn]. ring.
+  - apply (chain_rewrite_equiv p _ _ IN IV IR); cbn [map enodes nth]; try assumption.
+    + cbn. repeat split; reflexivity.
+    + intros x [<-|[<-|[]]]; [apply OKz | apply OKv].
+    + apply chain_wf_pair; cbn [t_e t_nx fst snd ename]; try assumption; try apply OKz; try apply OKv. discriminate.
+    + reflexivity.
+    + unfold Zt, w. cbn [map ksum t_e fst]. rewrite TZe. unfold tz. cbn [etyp eval]. ring.
+    + unfold Et, w. cbn [map ksum t_e t_fw fst snd sgn]. rewrite TEe. unfold te. cbn [etyp eval ekw]. rewrite kwf_S. ring.
+Qed.
+
+(* the unchanged tree prints the inductor's source as a plain constant, which
+   the netlist language reads as a DC source: its transform is kwf KwNone times
+   the value, not the value *)
+Theorem s_model_L_source_refuted (e : elem) (d : nat) :
+  etyp e = TL -> voc_of s e <> f0 -> kwf KwNone <> f1 ->
+  forall x, In x (fst (s_model_elem keqb s KwNone e d)) -> etyp x = TV -> te x <> te e.
+Proof.
+  intros Ht Hv Hk x Hx Hxt. unfold s_model_elem in Hx. rewrite Ht in Hx.
+  assert (Ev : keqb (voc_of s e) f0 = false) by (destruct (keqb (voc_of s e) f0) eqn:E; [apply keqb_ok in E; contradiction | reflexivity]).
+  rewrite Ev in Hx. cbn [fst In] in Hx. destruct Hx as [<-|[<-|[]]]; [discriminate|].
+  unfold te at 1. cbn [etyp ekw eval]. unfold te. rewrite Ht. unfold voc_of in *. rewrite Ht in *.
+  intros E. apply Hk. transitivity (fdiv (fmul (kwf KwNone) (fopp (fmul (eval e) (icv e)))) (fopp (fmul (eval e) (icv e)))); [field; exact Hv | rewrite E; field; exact Hv].
+Qed.
+
+(* the killed noise model: R (p, q) = NR (p, d) + wire (d, q) *)
+Theorem noisy_killed_equiv (e : elem) (p q d k : nat) IN IV IR :
+  etyp e = TR -> chain_el_ok e -> enodes e = [p; q] -> d <> O -> d <> p -> d <> q ->
+  let w := [(e, true, q)] in
+  let w2 := map (fun x => (x, true, en2 x)) (kill_noise (fst (noisy_elem e d)) k) in
+  (forall n, IN n = true <-> In n (interior (tsteps w) ++ interior (tsteps w2))) ->
+  (forall o, IR o = true <-> In o (owns (tsteps w) ++ owns (tsteps w2))) ->
+  (forall o, In o (owns (tsteps w) ++ owns (tsteps w2)) -> IV o = true) ->
+  port_equiv IN IV IR [esem e] (nsem (kill_noise (fst (noisy_elem e d)) k)).
+Proof.
+  intros Ht OK En Hd0 Hdp Hdq w w2 HIN HIR HIV.
+  assert (Ew2 : map t_e w2 = kill_noise (fst (noisy_elem e d)) k).
+  { unfold w2. rewrite map_map. cbn [t_e fst]. apply map_id. }
+  change [esem e] with (nsem (map t_e w)). rewrite <- Ew2. clear Ew2.
+  assert (W1 : wwalk p w) by (cbn; split; [exact En | exact I]).
+  assert (O1 : forall x, In x w -> chain_el_ok (t_e x)) by (intros x [<-|[]]; exact OK).
+  assert (WF1 : chain_wf (zn p) (tsteps w)) by (apply chain_wf_single; exact OK).
+  unfold w2 in *. unfold noisy_elem in *. rewrite Ht in *. cbn [fst kill_noise is_noise_src etyp ekw ety_eqb ety_code skw_eqb skw_code Nat.eqb andb] in *.
+  unfold en1, en2 in *. rewrite En in *. cbn [nth map enodes] in HIN, HIR, HIV.
+  assert (Hv : eval e <> f0) by (destruct OK as [V _]; unfold valid in V; rewrite Ht in V; exact V).
+  assert (OKn : chain_el_ok (Elem (NVar 2 (orig_id (ename e))) TNR [p; d] KwNone (eval e) None)) by (split; cbn; [exact Hv | exact I]).
+  assert (OKw : chain_el_ok (Elem (NWire k) TW [d; q] KwNone (f0 : K) None)) by (split; cbn; exact I).
+  apply (chain_rewrite_equiv p _ _ IN IV IR); cbn [nth map enodes]; try assumption.
+  - cbn. repeat split; reflexivity.
+  - intros x [<-|[<-|[]]]; assumption.
+  - apply chain_wf_pair; cbn [t_e t_nx fst snd ename]; try assumption. discriminate.
+  - reflexivity.
+  - unfold Zt, w. cbn [map ksum t_e fst]. unfold tz. rewrite Ht. cbn [etyp eval]. ring.
+  - unfold Et, w. cbn [map ksum t_e t_fw fst snd sgn]. unfold te. rewrite Ht. cbn [etyp]. ring.
+Qed.
+
+(* ---- dangling components ------------------------------------------------------ *)
+(* a two-terminal element one of whose nodes (d, not the reference node) is
+   touched by nothing else carries no current and can be removed *)
+Theorem dangling_removal_sound (e : elem) (fw : bool) (p d : nat) IN IV IR :
+  chain_el_ok e -> enodes e = (if fw then [p; d] else [d; p]) -> d <> O -> d <> p ->
+  IN (zn d) = true -> IV (zname (ename e)) = true -> IR (zname (ename e)) = true ->
+  port_equiv IN IV IR [esem e] [].
+Proof.
+  intros OK En Hd0 Hdp HIN HIV HIR.
+  change [esem e] with (nsem (map t_e [(e, fw, d)])).
+  assert (W : wwalk p [(e, fw, d)]) by (cbn; split; [exact En | exact I]).
+  assert (OKs : forall x, In x [(e, fw, d)] -> chain_el_ok (t_e x)) by (intros x [<-|[]]; exact OK).
+  rewrite (nsem_chain [(e, fw, d)] p W OKs).
+  cbn [tsteps map chain_sems]. apply (dangling_equiv K (zn p) (zn d)).
+  - reflexivity.
+  - intros H. apply zn_inj in H. congruence.
+  - apply zn_nonneg. exact Hd0.
+  - exact HIN.
+  - apply (tstep_data (e, fw, d)). exact OK.
+  - unfold own_private, tstep. cbn [sbr]. destruct (br_or (t_e (e, fw, d))) eqn:Eb; try exact I.
+    rewrite (br_or_own _ _ _ _ Eb). cbn [t_e fst]. repeat split; [apply zname_pos | exact HIV | exact HIR].
+Qed.
+
+(* ---- renumbering ------------------------------------------------------------- *)
+(* a bijective node map that fixes the reference node is an isomorphism of the
+   physical solutions (for netlists of two-terminal branch elements) *)
+Definition two_node_branch (e : elem) : Prop := branch_of e <> None /\ length (enodes e) = 2%nat.
+Lemma esem_two (e : elem) : two_node_branch e -> esem e = bsem (zn (en1 e)) (zn (en2 e)) (br_or e).
+Proof. intros [Hb _]. unfold esem, br_or. destruct (branch_of e); [reflexivity | congruence]. Qed.
+Lemma branch_rename (f : nat -> nat) (e : elem) :
+  branch_of (Elem (ename e) (etyp e) (map f (enodes e)) (ekw e) (eval e) (eic e)) = branch_of e.
+Proof. unfold branch_of, icv. cbn [etyp eval ename ekw eic]. reflexivity. Qed.
+Theorem renumber_iso (f : nat -> nat) (g ginv : Z -> Z) (N : list elem) v ib :
+  node_bij g ginv -> (forall n, g (zn n) = zn (f n)) -> Forall two_node_branch N ->
+  (gphys (nsem (rename_nodes f N)) v ib <-> gphys (nsem N) (fun m => v (g m)) ib).
+Proof.
+  intros B Hg TB.
+  set (tr := fun e : elem => (zn (en1 e), zn (en2 e), br_or e)).
+  assert (E1 : nsem N = sems_plain (map tr N)).
+  { unfold nsem, sems_plain. rewrite map_map. apply map_ext_in. intros e He. cbn [tr fst snd].
+    apply esem_two. rewrite Forall_forall in TB. apply TB. exact He. }
+  assert (E2 : nsem (rename_nodes f N) = sems_rename g (map tr N)).
+  { unfold nsem, sems_rename, rename_nodes. rewrite !map_map. apply map_ext_in. intros e He. cbn [tr fst snd].
+    rewrite Forall_forall in TB. destruct (TB e He) as [Hb Hl].
+    unfold esem. rewrite branch_rename. unfold br_or. destruct (branch_of e) as [bch|]; [|congruence].
+    unfold en1, en2. cbn [enodes]. destruct (enodes e) as [|n1 [|n2 [|? ?]]]; try discriminate. cbn [map nth]. rewrite !Hg. reflexivity. }
+  rewrite E1, E2. apply (renumber_branches K g ginv). exact B.
+Qed.
+
+(* ---- whole netlists: the rest of the circuit ----------------------------------- *)
+(* a component of the rest: a two-terminal branch element none of whose nodes is
+   private and whose branch unknown is not private; any other component as
+   long as its semantics does not read or touch the private nodes / unknowns *)
+Definition rest_ok (IN IV IR : Z -> bool) (e : elem) : Prop :=
+  match branch_of e with
+  | Some _ => length (enodes e) = 2%nat /\ IN (zn (en1 e)) = false /\ IN (zn (en2 e)) = false /\
+              IV (zname (ename e)) = false /\ IR (zname (ename e)) = false
+  | None => ext_of IN IV IR (esem e)
+  end.
+Lemma vv_agree (S : Z -> bool) (v v' : Z -> K) n : agree S v v' -> S n = false -> vv v n = vv v' n.
+Proof. intros A H. unfold vv. rewrite (A n H). reflexivity. Qed.
+Lemma esem_ext IN IV IR (e : elem) : rest_ok IN IV IR e -> ext_of IN IV IR (esem e).
+Proof.
+  unfold rest_ok, esem. destruct (branch_of e) as [bch|] eqn:Eb; [|auto]. intros [_ [H1 [H2 [H3 H4]]]].
+  assert (Ho : forall Zb E o, bch = BZ Zb E o -> o = zname (ename e)).
+  { intros Zb E o ->. unfold branch_of in Eb. destruct (etyp e); inversion Eb; reflexivity. }
+  split; [|split].
+  - intros v v' ib ib' A1 A2 x. rewrite !bsem_fst, !bsem_snd. unfold cur, resid.
+    rewrite (vv_agree IN v v' _ A1 H1), (vv_agree IN v v' _ A1 H2).
+    destruct bch as [Y J|Zb E o|J]; [split; reflexivity | | split; reflexivity].
+    rewrite (Ho _ _ _ eq_refl), (A2 _ H3). split; reflexivity.
+  - intros v ib r Hr. rewrite bsem_fst. apply thru_out; intros ->; congruence.
+  - intros v ib q Hq. rewrite bsem_snd. destruct bch as [Y J|Zb E o|J]; cbn [bown_of resid]; try ring.
+    rewrite ind_ne; [ring|]. intros ->. rewrite (Ho _ _ _ eq_refl) in Hq. congruence.
+Qed.
+
+(* replacing a chain of the netlist by a port-equivalent chain preserves the
+   solutions on every retained node and branch unknown, and the chain current *)
+Theorem rewrite_preserves_phys Obs IN IV IR (F1 F2 R : list elem) :
+  Forall (rest_ok IN IV IR) R -> port_sim_o Obs IN IV IR (nsem F1) (nsem F2) ->
+  gsim_o Obs IN IV (nsem (F1 ++ R)) (nsem (F2 ++ R)).
+Proof.
+  intros HR S. unfold nsem. rewrite !map_app.
+  apply (replace_preserves_phys_o K Obs IN IV IR [] (map esem R) (map esem F1) (map esem F2)); [constructor | | exact S].
+  apply Forall_forall. intros x Hx. apply in_map_iff in Hx. destruct Hx as [e [<- He]]. apply esem_ext.
+  rewrite Forall_forall in HR. apply HR. exact He.
+Qed.
+
+(* ================= what is FALSE of the unchanged tree (findings F3, F4) ========= *)
+Lemma two_nz : fadd f1 f1 <> (f0 : K).
+Proof. exact (fchar0 K 2%positive). Qed.
+Lemma twice_nz (x : K) : x <> f0 -> fadd x x <> f0.
+Proof. intros H E. apply (mul_nz K _ _ two_nz H). rewrite <- E. ring. Qed.
+
+(* F3, DESIGN reproducer `V1 1 0 A; V2 1 2 B; R1 2 0 rho`: walking the loop from
+   the reference node, V1 is traversed - to +, V2 + to -.  _do_simplify_combine
+   (enumeration order V1, V2) puts a source A + B at V1's place.  The original
+   loop and the rewritten loop are NOT related by the current-preserving
+   simulation: the loop current (hence R1's voltage) changes. *)
+Section F3.
+Variables A B rho : K.
+Hypothesis B_nz : fmul (kwf KwNone) B <> f0.
+Hypothesis rho_nz : rho <> f0.
+Definition f3_V1 : elem := Elem (NOrig 0) TV [1; 0]%nat KwNone A None.
+Definition f3_V2 : elem := Elem (NOrig 1) TV [1; 2]%nat KwNone B None.
+Definition f3_R1 : elem := Elem (NOrig 2) TR [2; 0]%nat KwNone rho None.
+Definition f3_w : list trip := [(f3_V1, false, 1%nat); (f3_V2, true, 2%nat); (f3_R1, true, 0%nat)].
+Definition f3_ms : list mem_t := [(f3_V1, false); (f3_V2, true)].
+Definition f3_new : elem := Elem (NNew TV 1) TV [1; 0]%nat KwNone (fadd A (fadd B f0)) None.
+Lemma f3_model : new_elem unchanged_tree (els_of f3_ms) (sames_of f3_ms) true false true (NNew TV 1) = Ok f3_new.
+Proof. reflexivity. Qed.
+Definition f3_w2 : list trip :=
+  map (trep (rep (NOrig 0) (fun x => nmem x [NOrig 1]) f3_new (fun _ => NWire 0))) f3_w.
+Lemma f3_w2_eq : f3_w2 = [(f3_new, false, 1%nat); (Elem (NWire 0) TW [1; 2]%nat KwNone f0 None, true, 2%nat); (f3_R1, true, 0%nat)].
+Proof. reflexivity. Qed.
+Lemma f3_ok x : In x f3_w \/ In x f3_w2 -> chain_el_ok (t_e x).
+Proof. rewrite f3_w2_eq. unfold f3_w. cbn [In]. intros [[<-|[<-|[<-|[]]]]|[<-|[<-|[<-|[]]]]]; split; cbn; try exact I; exact rho_nz. Qed.
+Lemma f3_wf (w : list trip) : w = f3_w \/ w = f3_w2 -> chain_wf (zn 0) (tsteps w) /\ lastn (zn 0) (tsteps w) = zn 0 /\ wwalk 0 w.
+Proof.
+  intros Hw. assert (OK : forall x, In x w -> chain_el_ok (t_e x)).
+  { intros x Hx. apply f3_ok. destruct Hw as [->| ->]; [left | right]; exact Hx. }
+  assert (Hn : NoDup (map (fun x => ename (t_e x)) w)).
+  { destruct Hw as [->| ->]; [|rewrite f3_w2_eq]; cbn; repeat constructor; cbn; intros H; repeat (destruct H as [H|H]; try discriminate); exact H. }
+  assert (Hnx : map t_nx w = [1; 2; 0]%nat) by (destruct Hw as [->| ->]; reflexivity).
+  assert (Hsn : map snext (tsteps w) = [zn 1; zn 2; zn 0]).
+  { unfold tsteps. rewrite map_map. change (fun x => snext (tstep x)) with (fun x => zn (t_nx x)). rewrite <- (map_map t_nx zn), Hnx. reflexivity. }
+  split; [|split].
+  - unfold chain_wf. destruct (tsteps w) as [|s1 [|s2 [|s3 [|s4 l]]]] eqn:Et; try discriminate. cbn [map] in Hsn. injection Hsn as H1 H2 H3.
+    cbn [interior lastn]. rewrite H1, H2, H3.
+    split; [repeat constructor; cbn; intros H; repeat (destruct H as [H|H]; try discriminate); exact H|].
+    split; [cbn; intros H; repeat (destruct H as [H|H]; try discriminate); exact H|].
+    split; [cbn; intros H; repeat (destruct H as [H|H]; try discriminate); exact H|].
+    split; [intros n [<-|[<-|[]]]; cbn; lia|].
+    rewrite <- Et. split; [apply owns_NoDup; exact Hn|].
+    split; [intros o Ho; destruct (owns_tsteps w o Ho) as [z [_ [-> _]]]; apply zname_pos|].
+    apply (tsteps_sums w OK).
+  - destruct (tsteps w) as [|s1 [|s2 [|s3 [|s4 l]]]] eqn:Et; try discriminate. cbn [map] in Hsn. injection Hsn as H1 H2 H3. cbn [lastn]. exact H3.
+  - destruct Hw as [->| ->]; cbn; repeat split; reflexivity.
+Qed.
+Theorem combine_series_refuted (IN IV IR : Z -> bool) :
+  (forall n, In n (interior (tsteps f3_w) ++ interior (tsteps f3_w2)) -> IN n = true) ->
+  (forall o, In o (owns (tsteps f3_w) ++ owns (tsteps f3_w2)) -> IR o = true) ->
+  ~ port_sim_o (same_current (zn 0) (tsteps f3_w) (tsteps f3_w2)) IN IV IR (nsem (map t_e f3_w)) (nsem (map t_e f3_w2)).
+Proof.
+  intros HIN HIR S.
+  destruct (f3_wf f3_w (or_introl eq_refl)) as [WF1 [L1 W1]]. destruct (f3_wf f3_w2 (or_intror eq_refl)) as [WF2 [L2 W2]].
+  assert (O1 : forall x, In x f3_w -> chain_el_ok (t_e x)) by (intros x Hx; apply f3_ok; left; exact Hx).
+  assert (O2 : forall x, In x f3_w2 -> chain_el_ok (t_e x)) by (intros x Hx; apply f3_ok; right; exact Hx).
+  rewrite (nsem_chain f3_w 0 W1 O1), (nsem_chain f3_w2 0 W2 O2) in S.
+  destruct (tsteps_sums f3_w O1) as [_ [Z1 E1]]. destruct (tsteps_sums f3_w2 O2) as [_ [Z2 E2]].
+  assert (Zv : Zt f3_w = rho /\ Zt f3_w2 = rho) by (split; unfold Zt; cbn; ring).
+  assert (Ev : Et f3_w = fadd (fopp (fmul (kwf KwNone) A)) (fmul (kwf KwNone) B) /\
+               Et f3_w2 = fopp (fmul (kwf KwNone) (fadd A (fadd B f0)))) by (split; unfold Et; cbn; ring).
+  assert (Hz : zsum (tsteps f3_w) <> f0) by (rewrite Z1, (proj1 Zv); exact rho_nz).
+  destruct (loop_solvable K (zn 0) (tsteps f3_w) IN IR (fun _ => f0) (fun _ => f0) WF1 L1 Hz) as [v [ib I1]].
+  pose proof (loop_esum_necessary K (zn 0) (tsteps f3_w) (tsteps f3_w2) IN IV IR WF1 WF2 L1 L2) as NEC.
+  assert (E : esum (tsteps f3_w) = esum (tsteps f3_w2)).
+  { apply NEC; try assumption; try discriminate.
+    - rewrite Z1, Z2, (proj1 Zv), (proj2 Zv). reflexivity.
+    - exists v, ib. exact I1. }
+  rewrite E1, E2, (proj1 Ev), (proj2 Ev) in E.
+  apply (twice_nz _ B_nz). transitivity (fsub (fadd (fopp (fmul (kwf KwNone) A)) (fmul (kwf KwNone) B)) (fopp (fmul (kwf KwNone) (fadd A (fadd B f0))))); [ring | rewrite E; ring].
+Qed.
+(* ... and the result depends on which member was enumerated first (hence on
+   PYTHONHASHSEED): the two possible outputs have opposite source terms *)
+Definition f3_new' : elem := Elem (NNew TV 1) TV [1; 2]%nat KwNone (fadd B (fadd A f0)) None.
+Theorem perm_invariant_refuted :
+  new_elem unchanged_tree (els_of [(f3_V2, true); (f3_V1, false)]) (sames_of [(f3_V2, true); (f3_V1, false)]) true false true (NNew TV 1) = Ok f3_new' /\
+  (fmul (kwf KwNone) (fadd A B) <> f0 -> sgn false (te f3_new) <> sgn true (te f3_new')).
+Proof. split; [reflexivity|]. intros H E. cbn in E. apply (twice_nz _ H).
+  transitivity (fsub (fmul (kwf KwNone) (fadd B (fadd A f0))) (fopp (fmul (kwf KwNone) (fadd A (fadd B f0))))); [ring | rewrite E; ring]. Qed.
+End F3.
+
+(* F4, DESIGN reproducer `C1 2 0 c1 v0; C2 2 0 c2 v0`: the combined capacitor
+   gets the initial voltage v0 + v0.  The group and the combined element are
+   distinguishable at the node pair. *)
+Section F4.
+Variables c1 c2 v0 : K.
+Hypothesis c_nz : fmul (fadd c1 (fadd c2 f0)) v0 <> f0.
+Hypothesis c1_nz : c1 <> f0.
+Hypothesis c2_nz : c2 <> f0.
+Hypothesis ct_nz : fadd c1 (fadd c2 f0) <> f0.
+Definition f4_C1 : elem := Elem (NOrig 0) TC [2; 0]%nat KwNone c1 (Some v0).
+Definition f4_C2 : elem := Elem (NOrig 1) TC [2; 0]%nat KwNone c2 (Some v0).
+Definition f4_ms : list mem_t := [(f4_C1, true); (f4_C2, true)].
+Definition f4_new : elem := Elem (NNew TC 1) TC [2; 0]%nat KwNone (fadd c1 (fadd c2 f0)) (Some (fadd v0 (fadd v0 f0))).
+Lemma f4_check : check_ic keqb unchanged_tree f4_C1 (els_of f4_ms) (sames_of f4_ms) = Ok true.
+Proof. unfold check_ic. cbn. rewrite (proj2 (keqb_ok v0 v0) eq_refl). reflexivity. Qed.
+Lemma f4_model : new_elem unchanged_tree (els_of f4_ms) (sames_of f4_ms) true true false (NNew TC 1) = Ok f4_new.
+Proof. reflexivity. Qed.
+Theorem combine_parallel_refuted (IN IV IR : Z -> bool) :
+  IN (zn 2) = false -> IN (zn 0) = false -> ~ port_sim IN IV IR (nsem (els_of f4_ms)) [esem f4_new].
+Proof.
+  intros H2 H0 S.
+  assert (AC : forall m, In m f4_ms -> across 2 0 m /\ branch_of (fst m) <> None).
+  { intros m [<-|[<-|[]]]; split; try reflexivity; cbn; discriminate. }
+  rewrite (nsem_psems 2 0 f4_ms AC) in S.
+  change [esem f4_new] with (nsem (els_of [(f4_new, true)])) in S.
+  rewrite (nsem_psems 2 0 [(f4_new, true)]) in S by (intros m [<-|[]]; split; [reflexivity | cbn; discriminate]).
+  assert (E : Jsum (map pstep_of f4_ms) = Jsum (map pstep_of [(f4_new, true)])).
+  { apply (par_norton_necessary K (zn 2) (zn 0) _ _ IN IV IR); try assumption; try (cbn; lia); try discriminate.
+    - repeat constructor. - repeat constructor. }
+  cbn in E. apply c_nz.
+  transitivity (fsub (fadd (fmul (fadd c1 (fadd c2 f0)) (fadd v0 (fadd v0 f0))) f0) (fadd (fmul c1 v0) (fadd (fmul c2 v0) f0))); [ring | rewrite <- E; ring].
+Qed.
+End F4.
 End Sem.
+
+Arguments zn : clear implicits. Arguments branch_of {K}. Arguments esem {K}. Arguments nsem {K}. Arguments valid {K}.
+Arguments tz {K}. Arguments te {K}. Arguments ty {K}. Arguments tj {K}. Arguments series_type : clear implicits.
+Arguments all_type {K}. Arguments same_kwf {K}. Arguments tzsum {K}. Arguments tesum {K}. Arguments tysum {K}. Arguments tjsum {K}.
+Arguments rsum {K}. Arguments vsum {K}. Arguments sames_of {K}. Arguments plain_ok_series {K}. Arguments plain_ok_parallel {K}.
+Arguments across {K}. Arguments par_sums_ok {K}. Arguments norton_type : clear implicits.
+Arguments trip K : clear implicits. Arguments t_e {K}. Arguments t_fw {K}. Arguments t_nx {K}. Arguments tstep {K}. Arguments tsteps {K}.
+Arguments wwalk {K}. Arguments chain_el_ok {K}. Arguments rep {K}. Arguments trep {K}. Arguments mem_t K : clear implicits.
+Arguments br_or {K}. Arguments pstep_of {K}.
+Print Assumptions series_equiv_inplace.
+Print Assumptions parallel_norton_equiv.
+Print Assumptions parallel_L_equiv.
+Print Assumptions combine_series_equiv.
+Print Assumptions combine_series_equiv_unchanged.
+Print Assumptions combine_parallel_equiv.
+Print Assumptions combine_parallel_equiv_unchanged.
+Print Assumptions perm_invariant.
+Print Assumptions chain_rewrite_equiv.
+Print Assumptions s_model_equiv.
+Print Assumptions noisy_killed_equiv.
+Print Assumptions s_model_L_source_refuted.
+Print Assumptions dangling_removal_sound.
+Print Assumptions renumber_iso.
+Arguments rest_ok {K}.
+Print Assumptions rewrite_preserves_phys.
+Print Assumptions combine_series_refuted.
+Print Assumptions perm_invariant_refuted.
+Print Assumptions combine_parallel_refuted.
